@@ -308,6 +308,25 @@ func (g *scenGen) genUnk() *Item {
 			return it
 		}
 	}
+	if g.r.Chance(1, 12) {
+		// a declared name followed by `:text`: the colon is part of the name, no declared option is called that
+		var cands []string
+		for _, k := range g.node.SortedKeys() {
+			if k != "-" && RuneCount(k) > 1 {
+				cands = append(cands, k)
+			}
+		}
+		if len(cands) > 0 {
+			n := g.r.Pick(cands) + ":" + g.pay.Str()
+			tok := "--" + n
+			if g.r.Chance(1, 3) {
+				tok += "=" + g.pay.Str()
+			}
+			it.Tokens = []string{tok}
+			it.UnkNames = []string{n}
+			return it
+		}
+	}
 	for tries := 0; tries < 50; tries++ {
 		long := g.r.Bool()
 		withVal := g.r.Chance(1, 3)
